@@ -29,6 +29,18 @@ pub const TARGETS: &[(&str, &str)] = &[
     ("split", "C15"),
     ("chunk_roundtrip", "C01"),
     ("foreign_stream", "C06"),
+    // structure-aware targets: the fuzzer's bytes are the entropy of the property's own proptest
+    // strategy (RngAlgorithm::PassThrough), the property's own oracle judges the generated case
+    ("pt_interop", "C02"),
+    ("pt_amf0_roundtrip", "C04"),
+    ("pt_handshake", "C05"),
+    ("pt_drop_subsets", "C08"),
+    ("pt_model_server", "C09"),
+    ("pt_model_client", "C10"),
+    ("pt_msg_roundtrip", "C13"),
+    ("pt_interleave", "C16"),
+    ("pt_ack", "C17"),
+    ("pt_session_emit", "C18"),
 ];
 
 pub fn run_target(name: &str, data: &[u8]) -> bool {
@@ -43,6 +55,16 @@ pub fn run_target(name: &str, data: &[u8]) -> bool {
         "split" => split(data),
         "chunk_roundtrip" => chunk_roundtrip(data),
         "foreign_stream" => foreign_stream(data),
+        "pt_interop" => pt_interop(data),
+        "pt_amf0_roundtrip" => pt_amf0_roundtrip(data),
+        "pt_handshake" => pt_handshake(data),
+        "pt_drop_subsets" => pt_drop_subsets(data),
+        "pt_model_server" => pt_model_server(data),
+        "pt_model_client" => pt_model_client(data),
+        "pt_msg_roundtrip" => pt_msg_roundtrip(data),
+        "pt_interleave" => pt_interleave(data),
+        "pt_ack" => pt_ack(data),
+        "pt_session_emit" => pt_session_emit(data),
         _ => return false,
     }
     true
@@ -540,6 +562,12 @@ pub fn write_corpus(target: &str, dir: &std::path::Path) -> std::io::Result<usiz
             put("nest".to_string(), [0x0Au8, 0, 0, 0, 1].repeat(40))?;
             n += 1;
         }
+        t if t.starts_with("pt_") => {
+            for (i, bytes) in pt_seed_inputs(t, 24).into_iter().enumerate() {
+                put(format!("recorded-{}", i), bytes)?;
+                n += 1;
+            }
+        }
         _ => {
             put("empty".to_string(), vec![0u8; 16])?;
             put("ones".to_string(), (0..96u8).collect())?;
@@ -588,4 +616,148 @@ pub fn corpus_check(targets: &'static [&'static str]) -> Box<dyn DynCheck> {
             Verdict::Pass(obs)
         },
     )
+}
+
+// ------------------------------------------------------------------------------------------------
+// Structure-aware targets driven through the properties' own strategies
+
+use proptest::strategy::{BoxedStrategy, Strategy, ValueTree};
+use proptest::test_runner::{Config, RngAlgorithm, TestRng, TestRunner};
+use std::any::Any;
+use std::cell::RefCell;
+use std::collections::HashMap;
+
+thread_local! {
+    static STRATEGIES: RefCell<HashMap<&'static str, Box<dyn Any>>> = RefCell::new(HashMap::new());
+}
+
+fn fuzz_ctx() -> Ctx {
+    Ctx { tier: crate::core::Tier::Quick, seed: 0, threads: 1, root: crate::core::verif_root(), scale: 1.0 }
+}
+
+/// Generates one case from `data` (as pass-through entropy) with the cached strategy `key` and
+/// judges it with `eval`; a Fail verdict panics (libFuzzer saves the input).
+fn fuzz_strategy<C: std::fmt::Debug + 'static>(key: &'static str, mk: impl FnOnce() -> BoxedStrategy<C>, data: &[u8], eval: impl Fn(&C) -> Verdict) {
+    if data.is_empty() {
+        return;
+    }
+    let case = STRATEGIES.with(|m| {
+        let mut m = m.borrow_mut();
+        let entry = m.entry(key).or_insert_with(|| Box::new(mk()) as Box<dyn Any>);
+        let strat = entry.downcast_ref::<BoxedStrategy<C>>().expect("strategy type");
+        // proptest's pass-through generator answers with zeros once the input is used up, and
+        // some of rand's rejection-sampling loops never accept a stream of zeros: continue the
+        // input with a pseudo-random tail derived from it (still a pure function of the input)
+        let mut entropy = data.to_vec();
+        let mut x = data.iter().fold(0xcbf29ce484222325u64, |h, b| (h ^ *b as u64).wrapping_mul(0x100000001b3));
+        while entropy.len() < 24 * 1024 {
+            x = x.wrapping_add(0x9E3779B97F4A7C15);
+            let mut z = x;
+            z = (z ^ (z >> 30)).wrapping_mul(0xBF58476D1CE4E5B9);
+            z = (z ^ (z >> 27)).wrapping_mul(0x94D049BB133111EB);
+            entropy.extend_from_slice(&(z ^ (z >> 31)).to_le_bytes());
+        }
+        let mut runner = TestRunner::new_with_rng(Config { failure_persistence: None, ..Config::default() }, TestRng::from_seed(RngAlgorithm::PassThrough, &entropy));
+        strat.new_tree(&mut runner).ok().map(|t| t.current())
+    });
+    if let Some(case) = case {
+        match eval(&case) {
+            Verdict::Fail(m) => panic!("{} violated: {} -- case: {}", key, crate::core::truncate(&m, 1500), crate::core::truncate(&format!("{:?}", case), 3000)),
+            _ => {}
+        }
+    }
+}
+
+pub fn pt_interop(data: &[u8]) {
+    fuzz_strategy("C02 interop", || crate::props::c02::scenario(false), data, crate::props::c02::eval)
+}
+
+pub fn pt_amf0_roundtrip(data: &[u8]) {
+    use proptest::prelude::*;
+    fuzz_strategy("C04 roundtrip", || crate::gen::amf_values(crate::gen::AmfCfg::LIB_ANY, 6).prop_map(|values| crate::props::c04::Case { values }).boxed(), data, crate::props::c04::eval)
+}
+
+pub fn pt_handshake(data: &[u8]) {
+    fuzz_strategy("C05 library-vs-library", || crate::props::c05::fuzz_strategy(), data, crate::props::c05::eval)
+}
+
+pub fn pt_drop_subsets(data: &[u8]) {
+    use proptest::prelude::*;
+    fuzz_strategy(
+        "C08 drop-subsets",
+        || {
+            let cfg = crate::gen::SeqCfg { max_ops: 10, drop_pct: 40, force_pct: 8, chunk_change_pct: 8, len_cap: 1500 };
+            (crate::gen::msg_seq(cfg), any::<u32>()).prop_map(|(seq, sample)| crate::props::c08::Case { seq, sample }).boxed()
+        },
+        data,
+        crate::props::c08::eval,
+    )
+}
+
+pub fn pt_model_server(data: &[u8]) {
+    fuzz_strategy("C09 histories", || crate::props::c09::case_strategy(30), data, crate::props::c09::eval)
+}
+
+pub fn pt_model_client(data: &[u8]) {
+    fuzz_strategy("C10 histories", || crate::props::c10::case_strategy(30), data, crate::props::c10::eval)
+}
+
+pub fn pt_msg_roundtrip(data: &[u8]) {
+    use proptest::prelude::*;
+    fuzz_strategy(
+        "C13 message-to-payload-and-back",
+        || (crate::props::c13::rm_strategy(), crate::gen::edge_u32(), crate::gen::edge_u32()).prop_map(|(msg, ts, msid)| crate::props::c13::Case { msg, ts, msid }).boxed(),
+        data,
+        crate::props::c13::eval_roundtrip,
+    )
+}
+
+pub fn pt_interleave(data: &[u8]) {
+    fuzz_strategy("C16 interleaved", || crate::props::c16::fuzz_strategy(), data, crate::props::c16::eval)
+}
+
+pub fn pt_ack(data: &[u8]) {
+    fuzz_strategy("C17 acknowledgements", || crate::props::c17::fuzz_strategy(), data, crate::props::c17::eval)
+}
+
+pub fn pt_session_emit(data: &[u8]) {
+    fuzz_strategy("C18 session output", || crate::props::c18::fuzz_strategy(), data, crate::props::c18::eval)
+}
+
+/// Seed inputs for a pass-through target: the entropy bytes proptest consumed while generating
+/// `n` cases from the target's strategy (RngAlgorithm::Recorder).
+pub fn pt_seed_inputs(target: &str, n: usize) -> Vec<Vec<u8>> {
+    use proptest::prelude::*;
+    fn record<C: std::fmt::Debug>(strat: BoxedStrategy<C>, n: usize) -> Vec<Vec<u8>> {
+        let mut out = Vec::new();
+        for i in 0..n {
+            let mut seed = [0u8; 32];
+            seed[0] = i as u8;
+            seed[1] = 0x5A;
+            let mut runner = TestRunner::new_with_rng(Config { failure_persistence: None, ..Config::default() }, TestRng::from_seed(RngAlgorithm::Recorder, &seed));
+            if strat.new_tree(&mut runner).is_ok() {
+                let b = runner.bytes_used();
+                if !b.is_empty() && b.len() <= 4096 {
+                    out.push(b);
+                }
+            }
+        }
+        out
+    }
+    match target {
+        "pt_interop" => record(crate::props::c02::scenario(false), n),
+        "pt_amf0_roundtrip" => record(crate::gen::amf_values(crate::gen::AmfCfg::LIB_ANY, 6).prop_map(|values| crate::props::c04::Case { values }).boxed(), n),
+        "pt_handshake" => record(crate::props::c05::fuzz_strategy(), n),
+        "pt_drop_subsets" => {
+            let cfg = crate::gen::SeqCfg { max_ops: 10, drop_pct: 40, force_pct: 8, chunk_change_pct: 8, len_cap: 1500 };
+            record((crate::gen::msg_seq(cfg), any::<u32>()).prop_map(|(seq, sample)| crate::props::c08::Case { seq, sample }).boxed(), n)
+        }
+        "pt_model_server" => record(crate::props::c09::case_strategy(30), n),
+        "pt_model_client" => record(crate::props::c10::case_strategy(30), n),
+        "pt_msg_roundtrip" => record((crate::props::c13::rm_strategy(), crate::gen::edge_u32(), crate::gen::edge_u32()).prop_map(|(msg, ts, msid)| crate::props::c13::Case { msg, ts, msid }).boxed(), n),
+        "pt_interleave" => record(crate::props::c16::fuzz_strategy(), n),
+        "pt_ack" => record(crate::props::c17::fuzz_strategy(), n),
+        "pt_session_emit" => record(crate::props::c18::fuzz_strategy(), n),
+        _ => Vec::new(),
+    }
 }
